@@ -454,6 +454,33 @@ def _save_cut_off_by_the_end_of_the_run(tr, n):
     return saver is not None and names.get(saver) == ['node', n] and status.get(saver) == 'cancelled'
 
 
+def _announcement_cut_off_by_the_end_of_the_run(tr, n):
+    """node n never completed in this run: every task that began to announce on_node_complete(n, error=None) was cancelled
+    while the first event manager's callback was still suspended.  `_execute_node` has not returned then: the result was
+    never stored, no consumer can have received it, and there is no final value to save — the node was still in flight when
+    the run ended, exactly like a node whose body is cut off (C13 demands that it is).  Decided from the trace alone: the
+    second event manager, which is told after the first and does not suspend here, never heard of the completion, the
+    announcing task ended cancelled, and no body was handed the value."""
+    if tr['spec'].get('cbraise') or 'obs2' not in tr:
+        return False
+    if any(o[0] == 'ncomplete' and o[2] == n and o[3] is None for o in tr['obs2']):
+        return False
+    evs = _events(tr) + tr.get('after', [])
+    announcers, status = set(), {}
+    for e in evs:
+        for o in e.get('obs', []):
+            if o[0] == 'emit' and o[1] == 'ncomplete' and o[3] == n and o[4] is None:
+                announcers.add(e.get('t'))
+        for d in e.get('done') or []:
+            status[d[0]] = d[1][0]
+    if not announcers or any(status.get(t) != 'cancelled' for t in announcers):
+        return False
+    if n == tr['graph']['output']:
+        return False
+    started = {o[2] for _, o in _obs(tr, ('body', 'default'), include_after=True)}
+    return not any(e['u'] == n and e['kwarg'] and e['v'] in started for e in tr['graph']['edges'])
+
+
 def c19(tr, sem=None):
     v = []
     r = tr['results'][0] if tr['results'] else None
@@ -477,7 +504,7 @@ def c19(tr, sem=None):
                     v.append(f'node {n} saved {len(xs)} times')
         recdest = {n['id'] for n in tr['graph']['nodes'] if n['start_node'] is not None}
         for n in valued - recdest:      # (a destination's on_node_complete(None) may belong to a Recurrent marker)
-            if n not in saves:
+            if n not in saves and not _announcement_cut_off_by_the_end_of_the_run(tr, n):
                 v.append(f'node {n} produced a value that was never saved')
         if 'saved_completed' in tr and not has_rec:
             # a value that was delivered to a consumer (or returned) has been saved: the write ran to completion, it was
